@@ -81,6 +81,7 @@ func runC02(c *Ctx) {
 	}
 	c02GroupCount(c)
 	c02PortSplit(c)
+	c02IPDispatch(c)
 }
 
 func safeSkeleton(b *skel.Builder, f *ssa.Function) (s string) {
@@ -697,4 +698,71 @@ func c02Uint16(c *Ctx, f *ssa.Function) {
 		return
 	}
 	c.check(bad == "", "C02.port.number", f, what, nil, sprintf("%d (n, rune) threshold cases evaluated exactly. %s", cases, bad))
+}
+
+// c02IPDispatch mirrors netip.ParseAddr's dispatcher: the first '.' or ':'
+// decides the family; the IPv4 scanner gets the whole text (a zone after an
+// IPv4 address is an error), the IPv6 scanner gets the text in front of '%'
+// and an empty zone is rejected.
+func c02IPDispatch(c *Ctx) {
+	c.L.Floor("C02.ip.dispatch", 2)
+	f := c.fn("netutil", "IsValidIPString")
+	if f == nil {
+		return
+	}
+	p0 := ssa.Value(f.Params[0])
+	n4, n6 := 0, 0
+	for _, ci := range core.AllCalls(f) {
+		cal := ci.Common().StaticCallee()
+		if cal == nil {
+			continue
+		}
+		switch cal.Name() {
+		case "isValidIPv4String":
+			n4++
+			c.check(ci.Common().Args[0] == p0, "C02.ip.dispatch", f, "the IPv4 scanner is given the whole input", ci,
+				"netip.ParseAddr hands the complete text to parseIPv4, so \"1.2.3.4%eth0\" is rejected; anything cut off before the call is accepted silently")
+		case "isValidIPv6String":
+			n6++
+			ok := false
+			var cut *ssa.Call
+			if ex, isEx := ci.Common().Args[0].(*ssa.Extract); isEx && ex.Index == 0 {
+				if call, isC := ex.Tuple.(*ssa.Call); isC && core.CalleeName(&call.Call) == "strings.Cut" && call.Call.Args[0] == p0 {
+					if sep, isK := core.ConstString(call.Call.Args[1]); isK && sep == "%" {
+						ok, cut = true, call
+					}
+				}
+			}
+			c.check(ok, "C02.ip.dispatch", f, "the IPv6 scanner is given the input up to the first '%'", ci, "netip.ParseAddr splits the zone off at the first '%'")
+			if cut != nil {
+				// an empty zone is rejected: the call is not reachable when hasZone && zone == ""
+				zone, has := extractOf(cut, 1), extractOf(cut, 2)
+				okZone := false
+				for _, ret := range core.Returns(f) {
+					if b, isK := core.ConstBool(ret.Results[0]); !isK || b {
+						continue
+					}
+					gotHas, gotEmpty := false, false
+					for _, g := range core.GuardsOf(ret) {
+						cond, truth := core.StripNot(g.Cond, g.Truth)
+						if has != nil && cond == has && truth {
+							gotHas = true
+						}
+						if b, isB := cond.(*ssa.BinOp); isB && zone != nil && b.X == zone {
+							if str, isK := core.ConstString(b.Y); isK && str == "" && ((b.Op == token.EQL && truth) || (b.Op == token.NEQ && !truth)) {
+								gotEmpty = true
+							}
+						}
+					}
+					if gotHas && gotEmpty && core.MayFollow(ret.Block().Instrs[0], ci) == false && core.Reaches(cut.Block(), ret.Block()) || (gotHas && gotEmpty && cut.Block() == ret.Block()) {
+						okZone = true
+					}
+				}
+				c.check(okZone, "C02.ip.dispatch", f, "an empty zone (\"fe80::1%\") is rejected before the IPv6 scanner runs", ci, "netip: \"zone must be a non-empty string\"")
+			}
+		}
+	}
+	if n4 == 0 || n6 == 0 {
+		c.undecided("C02.ip.dispatch", f, "calls of the two family scanners", nil, sprintf("found %d IPv4 and %d IPv6 scanner calls", n4, n6))
+	}
 }
